@@ -63,8 +63,11 @@ class TlcResult:
 
 
 def tlc_cmd(module, cfg, metadir, workers=1, coverage=False, xmx="3g", extra=()):
-    cmd = ["java", "-Xss1g", "-Xmx" + xmx, "-XX:+UseSerialGC" if workers == 1 else "-XX:+UseParallelGC",
-           "-cp", JARS, "tlc2.TLC", "-workers", str(workers), "-noGenerateSpecTE", "-nowarning",
+    # a small young generation keeps a single-worker evaluator in cache and avoids page-faulting through
+    # gigabytes of fresh heap (measured: 5.0 s -> 2.9 s per shard under load, sys time 3.9 s -> 0.5 s)
+    gc = ["-XX:+UseSerialGC", "-Xmn96m"] if workers == 1 else ["-XX:+UseParallelGC"]
+    cmd = ["java", "-Xss1g", "-Xmx" + xmx] + gc + [
+"-cp", JARS, "tlc2.TLC", "-workers", str(workers), "-noGenerateSpecTE", "-nowarning",
            "-metadir", metadir, "-config", cfg]
     if coverage:
         cmd += ["-coverage", "1"]
